@@ -260,9 +260,26 @@ class BaseVersion(object):
         # type: (Any) -> bool
         return self._compare(other) > 0
 
+    _re_hash_parts = re.compile(r"([^0-9]*)([0-9]*)")
+
+    @classmethod
+    def _hash_key_part(cls, part):
+        # type: (Optional[str]) -> Tuple[Tuple[str, int], ...]
+        # Versions that compare equal can differ in leading zeros of the
+        # numbers and in absent parts (which count as empty or zero).
+        pairs = [(nondigits, int(digits or "0"))
+                 for nondigits, digits in cls._re_hash_parts.findall(part or "")]
+        while pairs and pairs[-1] == ("", 0):
+            pairs.pop()
+        return tuple(pairs)
+
     def __hash__(self):
         # type: () -> int
-        return hash(str(self))
+        # Must agree with __eq__: equal versions have equal hashes even if
+        # they are spelled differently (e.g. "1.0", "1.00" and "0:1.0-0").
+        return hash((int(self.epoch or "0"),
+                     self._hash_key_part(self.upstream_version),
+                     self._hash_key_part(self.debian_revision)))
 
 
 class AptPkgVersion(BaseVersion):
